@@ -38,7 +38,7 @@ func vhArrayLeafSize(slab *ArrayDataSlab) uint32 {
 func VH_C05_ArrayLeafSplit() {
 	nmax := vhParam("n", 8)
 	T := vhRange32("T", 256, 32768)
-	vhSetThreshold(T)
+	vhSetThresholdSym(T)
 	n := 2 + vhChoose("n", nmax-1)
 	storage := vhNewBasicStorage()
 	id, _ := storage.GenerateSlabID(vhAddr(1))
@@ -108,7 +108,7 @@ func vhCheckLeafPair(left, right *ArrayDataSlab, total int, totalSize uint32, wh
 func VH_C05_ArrayLeafRebalance() {
 	nmax := vhParam("n", 4)
 	T := vhRange32("T", 256, 32768)
-	vhSetThreshold(T)
+	vhSetThresholdSym(T)
 	nl := 1 + vhChoose("nl", nmax)
 	nr := 1 + vhChoose("nr", nmax)
 	left := vhArrayLeaf(vhSlabID(1, 1), nl, 0)
